@@ -41,7 +41,9 @@ def uniq(plan, prefix):
     out = []
     for n, entry in enumerate(plan):
         act = list(entry['act'])
-        if act[0] in ('pause', 'kill', 'fail', 'soon_ok', 'soon_raise'):
+        if act[0] == 'pause' and len(act) > 1 and act[1] is None:
+            pass  # (a pause without a message text is a case of its own: the status is left alone while paused)
+        elif act[0] in ('pause', 'kill', 'fail', 'soon_ok', 'soon_raise'):
             # (a text containing 'falsy' keeps that marker: it makes the exception built from it a falsy object)
             act = [act[0], '%s-%s%s%d' % (prefix, 'falsy-' if 'falsy' in str(act[1]) else '', act[0], n)]
         elif act[0] == 'resume' and len(act) > 1 and act[1] is not None and act[1] != [None]:
